@@ -22,7 +22,8 @@ def explore(sc, pats, cfg='EventCodes.cfg', module='EventCodes', extra_split=())
     specdir = common.prepare_spec_dir(sc)
     with open(os.path.join(specdir, 'EventCodesNFA.tla'), 'w') as f:
         f.write(rx.tla_module(tr))
-    r = common.run_tlc(specdir, module, cfg, workers=8, heap='4g', timeout=1800)
+    # one worker: breadth-first search is then deterministic, and so are the witness strings every language-based check uses
+    r = common.run_tlc(specdir, module, cfg, workers=1, heap='4g', timeout=1800)
     return tr, r, specdir
 
 
